@@ -198,7 +198,19 @@ def isar_forms(ctx, L):
                 why.get(k) or 'dimension form %d must be `%s`' % (i, want[k]), got.get(k, ''))
     L.check(set(got) == set(want), 'C17a.isar-forms', 'form-count', c.site(), 'exactly four dimension forms', str(sorted(got)))
     ms = ctx.py.mod('prophyc.parsers.isar').func('make_struct')
-    L.check('for member in xml_elem: for sub_ in make_struct_members(member, last_member_array_is_dynamic): members.append(sub_)' in ws(unparse(ms.node)),
+    L.check(any(P.body_is(ms, """
+        if len(xml_elem):
+            %s
+            return model.Struct(xml_elem.get("name"), members, docstring=get_docstr(xml_elem))
+        """ % fill) for fill in (
+            """members = []
+            for member in xml_elem:
+                for sub_ in make_struct_members(member, last_member_array_is_dynamic):
+                    members.append(sub_)""",
+            """members = []
+            for member in xml_elem:
+                members.extend(make_struct_members(member, last_member_array_is_dynamic))""",
+            """members = [sub_ for member in xml_elem for sub_ in make_struct_members(member, last_member_array_is_dynamic)]""")),
             'C17f.member-order', 'make_struct', ms.site(), 'members keep their document order', '')
 
 
@@ -260,6 +272,7 @@ def patch_actions(ctx, L):
             '`limited` "needs to be a fixed array to begin with" (docs/other_schemas.rst): a member without a size must be refused, '
             'otherwise bound without size silently makes a dynamic array', s[-300:])
     L.check(any(isinstance(r, ast.Raise) and (P.knows(lim, r, 'len(tuple(x for x in node.members[:i] if x.name == len_array))', False) or
+                                              P.knows(lim, r, 'any(x.name == len_array for x in node.members[:i])', False) or
                                               P.knows(lim, r, 'sizer_found', False) and P.has(lim, "sizer_found = len(tuple((x for x in node.members[:i] if x.name == len_array)))"))
                 for r in lim.walk()),
             'C17e.patch-precondition', '_limited|sizer-before', lim.site(), 'the sizer must exist before the array', '')
